@@ -8,6 +8,14 @@ import NeumannModel.Snap.Lemmas
     byte, rename atomic), every old file system, EVERY file name (the temp name `name ++ ".tmp"`
     never equals the name and is injective), and additionally under power loss (un-synced bytes of
     any file cut at any byte).
+  * the clause "later saves keep working" is stated over SEQUENCES of saves: for every directory
+    including an ARBITRARY leftover temp file (what an interrupted save leaves: any content, any
+    length), every crash point of the next save shows old-or-new at the path and a completed save
+    leaves exactly the new snapshot and no temp file (`save_over_stale_tmp_exact`,
+    `two_saves_atomic_and_exact`, `any_crashes_then_save_exact`), for both save sequences. This
+    rests on `File::create` truncating: for the variant that opens the temp file without truncation
+    (`saveOpsKeep`, NOT the code) the final content is proved to be new ++ tail-of-stale, with a
+    `decide` witness on a crash state of the real sequence.
   * the quantising format's value map is exact on every scalar (Bytes included), on pointers, on
     every vector that is not sent to tensor-train by the caller's configuration (raw branch and
     guarded id-list branch alike) and on every sparse value.
@@ -498,6 +506,299 @@ theorem save_power_loss_load_atomic {σ : Type} (C : Codec σ) (hdec : ∀ s, C.
 
 example : ∃ bs, PowerLossContent (applyOps demoFS (saveOps true false (encodeHeader (newHeader false 1)) [9])) false bs :=
   ⟨encodeHeader (newHeader false 1) ++ [9], ⟨encodeHeader (newHeader false 1) ++ [9], []⟩, by decide, 0, by decide, by decide⟩
+
+/-! ### a later save over whatever an interrupted save left behind (two saves, any number of saves)
+
+  The crash clause of the property is about a SEQUENCE of saves: an interrupted save leaves its temp
+  file behind (any prefix of the snapshot it was writing, or all of it), and the next save to the same
+  path must still replace the path by exactly its own snapshot. That rests on the temp file being
+  opened with create-or-TRUNCATE (`File::create`); the theorems below are stated for every initial
+  directory, the leftover temp file being an explicit, arbitrary `stale : File`. -/
+
+section stale
+variable {π : Type} [DecidableEq π] {σ : Type}
+
+theorem set_other (fs : FS π) (p q : π) (f : Option File) (h : q ≠ p) : (fs.set p f) q = fs q := by
+  simp [FS.set, h]
+
+/-- the driver's direct computation of one crash point inside an operation is the model's enumeration -/
+theorem partialAt_eq (fs : FS π) (op : IoOp π) (k : Nat) : partialAt fs op k = (partials fs op)[k]? := by
+  cases op with
+  | write p bs =>
+    by_cases h : k < bs.length <;> simp [partialAt, partials, h]
+  | writeAt p off bs =>
+    by_cases h : k < bs.length <;> simp [partialAt, partials, h]
+  | create p => cases k <;> simp [partialAt, partials]
+  | openKeep p => cases k <;> simp [partialAt, partials]
+  | fsync p => cases k <;> simp [partialAt, partials]
+  | rename a b => cases k <;> simp [partialAt, partials]
+
+/-- crash states of the rest of a sequence, after a completed prefix, are crash states of the whole -/
+theorem crashStates_append (a b : List (IoOp π)) :
+    ∀ (fs st : FS π), st ∈ crashStates (applyOps fs a) b → st ∈ crashStates fs (a ++ b) := by
+  induction a with
+  | nil => intro fs st h; simpa [applyOps] using h
+  | cons op a ih =>
+    intro fs st h
+    simp only [List.cons_append, crashStates, List.mem_append]
+    exact .inr (ih _ _ (by simpa [applyOps] using h))
+
+/-- **A completed save leaves exactly the new snapshot at the path** — whatever the directory held
+    before: the temp file is gone and every other file is untouched. -/
+theorem save_final_exact (tmp path : π) (hne : tmp ≠ path) (fs0 : FS π) (hdr body : Bytes) :
+    applyOps fs0 (saveOps tmp path hdr body) path = some ⟨hdr ++ body, []⟩ ∧
+    applyOps fs0 (saveOps tmp path hdr body) tmp = none ∧
+    ∀ q, q ≠ tmp → q ≠ path → applyOps fs0 (saveOps tmp path hdr body) q = fs0 q := by
+  have hpt : path ≠ tmp := fun e => hne e.symm
+  refine ⟨?_, ?_, ?_⟩
+  · simp [saveOps, saveOpsWith, applyOps, applyOp, FS.set, hne, hpt]
+  · simp [saveOps, saveOpsWith, applyOps, applyOp, FS.set, hne]
+  · intro q h1 h2
+    simp [saveOps, saveOpsWith, applyOps, applyOp, FS.set, hne, h1, h2]
+
+/-- the same for the quantising save -/
+theorem saveq_final_exact (tmp path : π) (hne : tmp ≠ path) (fs0 : FS π) (blob : Bytes) :
+    applyOps fs0 (saveOpsQ tmp path blob) path = some ⟨blob, []⟩ ∧
+    applyOps fs0 (saveOpsQ tmp path blob) tmp = none ∧
+    ∀ q, q ≠ tmp → q ≠ path → applyOps fs0 (saveOpsQ tmp path blob) q = fs0 q := by
+  have hpt : path ≠ tmp := fun e => hne e.symm
+  refine ⟨?_, ?_, ?_⟩
+  · simp [saveOpsQ, saveOpsQWith, applyOps, applyOp, FS.set, hne, hpt]
+  · simp [saveOpsQ, saveOpsQWith, applyOps, applyOp, FS.set, hne]
+  · intro q h1 h2
+    simp [saveOpsQ, saveOpsQWith, applyOps, applyOp, FS.set, hne, h1, h2]
+
+/-- **Save over a stale temp file, completed.** With ANY leftover temp file (any content, any
+    length, synced or not) in ANY directory, the completed save leaves at the path exactly the new
+    snapshot — not one byte of the stale file —, no temp file, and every other file as it was. -/
+theorem save_over_stale_tmp_exact (tmp path : π) (hne : tmp ≠ path) (fs0 : FS π) (stale : File) (hdr body : Bytes) :
+    applyOps (fs0.set tmp (some stale)) (saveOps tmp path hdr body) path = some ⟨hdr ++ body, []⟩ ∧
+    applyOps (fs0.set tmp (some stale)) (saveOps tmp path hdr body) tmp = none ∧
+    ∀ q, q ≠ tmp → q ≠ path → applyOps (fs0.set tmp (some stale)) (saveOps tmp path hdr body) q = fs0 q := by
+  obtain ⟨h1, h2, h3⟩ := save_final_exact tmp path hne (fs0.set tmp (some stale)) hdr body
+  exact ⟨h1, h2, fun q hq hq' => by rw [h3 q hq hq', set_other _ _ _ _ hq]⟩
+
+/-- the same for the quantising save -/
+theorem saveq_over_stale_tmp_exact (tmp path : π) (hne : tmp ≠ path) (fs0 : FS π) (stale : File) (blob : Bytes) :
+    applyOps (fs0.set tmp (some stale)) (saveOpsQ tmp path blob) path = some ⟨blob, []⟩ ∧
+    applyOps (fs0.set tmp (some stale)) (saveOpsQ tmp path blob) tmp = none ∧
+    ∀ q, q ≠ tmp → q ≠ path → applyOps (fs0.set tmp (some stale)) (saveOpsQ tmp path blob) q = fs0 q := by
+  obtain ⟨h1, h2, h3⟩ := saveq_final_exact tmp path hne (fs0.set tmp (some stale)) blob
+  exact ⟨h1, h2, fun q hq hq' => by rw [h3 q hq hq', set_other _ _ _ _ hq]⟩
+
+/-- **Save over a stale temp file, interrupted.** Every crash point of a save that starts with an
+    arbitrary leftover temp file shows at the path what was there before, or the complete new file. -/
+theorem save_over_stale_tmp_crash_content (tmp path : π) (hne : tmp ≠ path) (fs0 : FS π) (stale : File)
+    (hdr body : Bytes) :
+    ∀ st ∈ crashStates (fs0.set tmp (some stale)) (saveOps tmp path hdr body),
+      st path = fs0 path ∨ st path = some ⟨hdr ++ body, []⟩ := by
+  intro st hst
+  have hpt : path ≠ tmp := fun e => hne e.symm
+  have := save_crash_path_content tmp path hne (fs0.set tmp (some stale)) hdr body true st hst
+  rwa [set_other _ _ _ _ hpt] at this
+
+/-- the same for the quantising save -/
+theorem saveq_over_stale_tmp_crash_content (tmp path : π) (hne : tmp ≠ path) (fs0 : FS π) (stale : File)
+    (blob : Bytes) :
+    ∀ st ∈ crashStates (fs0.set tmp (some stale)) (saveOpsQ tmp path blob),
+      st path = fs0 path ∨ st path = some ⟨blob, []⟩ := by
+  intro st hst
+  have hpt : path ≠ tmp := fun e => hne e.symm
+  have := saveq_crash_atomic tmp path hne (fs0.set tmp (some stale)) blob st hst
+  rwa [set_other _ _ _ _ hpt] at this
+
+/-- **At the level of `load`, every file name**: with an arbitrary leftover `name.tmp`, every crash
+    point of the save loads as what the path loaded as before, or as the complete new snapshot; and
+    the completed save loads as exactly the new snapshot. -/
+theorem save_over_stale_tmp_load (C : Codec σ) (hdec : ∀ s, C.dec (C.enc s) = some s)
+    (hz : ∀ b, C.unzip (C.zip b) = some b)
+    (name : List Char) (fs0 : FS (List Char)) (stale : File) (new : σ) (compress : Bool) (count : Nat) (hc : count < U64) :
+    (∀ st ∈ crashStates (fs0.set (tmpName name) (some stale))
+        (saveOps (tmpName name) name (encodeHeader (newHeader compress count))
+          (if compress then C.zip (C.enc new) else C.enc new)),
+      loadPath C st name = loadPath C fs0 name ∨ loadPath C st name = .ok new) ∧
+    loadPath C (applyOps (fs0.set (tmpName name) (some stale))
+        (saveOps (tmpName name) name (encodeHeader (newHeader compress count))
+          (if compress then C.zip (C.enc new) else C.enc new))) name = .ok new := by
+  have hne := tmpName_ne name
+  constructor
+  · intro st hst
+    have := save_crash_atomic C hdec hz (tmpName name) name hne (fs0.set (tmpName name) (some stale)) new
+      compress count hc st hst
+    have hl : loadPath C (fs0.set (tmpName name) (some stale)) name = loadPath C fs0 name := by
+      simp [loadPath, set_other _ _ _ _ (fun e => hne e.symm)]
+    rwa [hl] at this
+  · have h := (save_over_stale_tmp_exact (tmpName name) name hne fs0 stale
+      (encodeHeader (newHeader compress count)) (if compress then C.zip (C.enc new) else C.enc new)).1
+    have hl := load_saved_ok C hdec hz compress count hc new
+    unfold fileBytes at hl
+    simp [loadPath, h, File.content, hl]
+
+/-- **Two saves.** The first save (of anything) is cut at ANY crash point — leaving no temp file, a
+    partial one or a complete one. The second save, run on that directory, is atomic again: each of
+    ITS crash points shows at the path what the path held before the first save, the complete first
+    snapshot, or the complete second one; and when it completes, the path holds exactly the second
+    snapshot and the temp file is gone. -/
+theorem two_saves_atomic_and_exact (tmp path : π) (hne : tmp ≠ path) (fs0 : FS π) (hdr1 body1 hdr2 body2 : Bytes) :
+    ∀ st1 ∈ crashStates fs0 (saveOps tmp path hdr1 body1),
+      (∀ st2 ∈ crashStates st1 (saveOps tmp path hdr2 body2),
+        st2 path = fs0 path ∨ st2 path = some ⟨hdr1 ++ body1, []⟩ ∨ st2 path = some ⟨hdr2 ++ body2, []⟩) ∧
+      applyOps st1 (saveOps tmp path hdr2 body2) path = some ⟨hdr2 ++ body2, []⟩ ∧
+      applyOps st1 (saveOps tmp path hdr2 body2) tmp = none := by
+  intro st1 h1
+  refine ⟨fun st2 h2 => ?_, (save_final_exact tmp path hne st1 hdr2 body2).1,
+    (save_final_exact tmp path hne st1 hdr2 body2).2.1⟩
+  have a := save_crash_path_content tmp path hne fs0 hdr1 body1 true st1 h1
+  have b := save_crash_path_content tmp path hne st1 hdr2 body2 true st2 h2
+  simp only [if_true] at a b
+  rcases b with b | b
+  · rcases a with a | a
+    · exact .inl (b.trans a)
+    · exact .inr (.inl (b.trans a))
+  · exact .inr (.inr b)
+
+/-- two saves through the quantising format -/
+theorem saveq_two_saves_atomic_and_exact (tmp path : π) (hne : tmp ≠ path) (fs0 : FS π) (blob1 blob2 : Bytes) :
+    ∀ st1 ∈ crashStates fs0 (saveOpsQ tmp path blob1),
+      (∀ st2 ∈ crashStates st1 (saveOpsQ tmp path blob2),
+        st2 path = fs0 path ∨ st2 path = some ⟨blob1, []⟩ ∨ st2 path = some ⟨blob2, []⟩) ∧
+      applyOps st1 (saveOpsQ tmp path blob2) path = some ⟨blob2, []⟩ ∧
+      applyOps st1 (saveOpsQ tmp path blob2) tmp = none := by
+  intro st1 h1
+  refine ⟨fun st2 h2 => ?_, (saveq_final_exact tmp path hne st1 blob2).1, (saveq_final_exact tmp path hne st1 blob2).2.1⟩
+  have a := saveq_crash_atomic tmp path hne fs0 blob1 st1 h1
+  have b := saveq_crash_atomic tmp path hne st1 blob2 st2 h2
+  rcases b with b | b
+  · rcases a with a | a
+    · exact .inl (b.trans a)
+    · exact .inr (.inl (b.trans a))
+  · exact .inr (.inr b)
+
+/-- **Any number of interrupted saves, then one that completes.** After any sequence of saves each
+    cut at any crash point, the path holds what it held at the start or the complete snapshot of one
+    of those saves — the last one that got as far as its rename —, and the next completed save leaves
+    exactly its own snapshot and no temp file: saving keeps working. -/
+theorem any_crashes_then_save_exact (tmp path : π) (hne : tmp ≠ path) (fs0 : FS π)
+    (saves : List (Bytes × Bytes)) (st : FS π) (h : AfterCrashes tmp path fs0 saves st) (hdr body : Bytes) :
+    (st path = fs0 path ∨ ∃ hb ∈ saves, st path = some ⟨hb.1 ++ hb.2, []⟩) ∧
+    (∀ st' ∈ crashStates st (saveOps tmp path hdr body), st' path = st path ∨ st' path = some ⟨hdr ++ body, []⟩) ∧
+    applyOps st (saveOps tmp path hdr body) path = some ⟨hdr ++ body, []⟩ ∧
+    applyOps st (saveOps tmp path hdr body) tmp = none := by
+  refine ⟨?_, fun st' h' => by simpa using save_crash_path_content tmp path hne st hdr body true st' h',
+    (save_final_exact tmp path hne st hdr body).1, (save_final_exact tmp path hne st hdr body).2.1⟩
+  induction h with
+  | none => exact .inl rfl
+  | more hb _ hmem ih =>
+    have b := save_crash_path_content tmp path hne _ hb.1 hb.2 true _ hmem
+    simp only [if_true] at b
+    rcases b with b | b
+    · rcases ih with a | ⟨x, hx, a⟩
+      · exact .inl (b.trans a)
+      · exact .inr ⟨x, List.mem_append_left _ hx, b.trans a⟩
+    · exact .inr ⟨hb, by simp, b⟩
+
+/-! #### the variant that does not truncate (`OpenOptions::new().write(true).create(true)`): NOT the code -/
+
+/-- what a completed non-truncating save leaves at the path, for every leftover temp file: the new
+    snapshot FOLLOWED BY the tail of the stale file beyond the new snapshot's length -/
+theorem save_no_truncate_final_content (tmp path : π) (hne : tmp ≠ path) (fs0 : FS π) (stale : File) (hdr body : Bytes) :
+    applyOps (fs0.set tmp (some stale)) (saveOpsKeep tmp path hdr body) path =
+      some ⟨hdr ++ body ++ stale.content.drop (hdr.length + body.length), []⟩ := by
+  have hpt : path ≠ tmp := fun e => hne e.symm
+  simp [saveOpsKeep, applyOps, applyOp, FS.set, hne, hpt, File.content, overlay_zero, overlay_after_prefix,
+    List.drop_drop]
+
+/-- the same for the quantising save -/
+theorem saveq_no_truncate_final_content (tmp path : π) (hne : tmp ≠ path) (fs0 : FS π) (stale : File) (blob : Bytes) :
+    applyOps (fs0.set tmp (some stale)) (saveOpsQKeep tmp path blob) path =
+      some ⟨blob ++ stale.content.drop blob.length, []⟩ := by
+  have hpt : path ≠ tmp := fun e => hne e.symm
+  simp [saveOpsQKeep, applyOps, applyOp, FS.set, hne, hpt, File.content, overlay_zero]
+
+/-- so the non-truncating save is exact precisely when the leftover temp file is not longer than
+    the new snapshot — which is why ordinary save / load round trips cannot tell the two apart -/
+theorem save_no_truncate_exact_iff (tmp path : π) (hne : tmp ≠ path) (fs0 : FS π) (stale : File) (hdr body : Bytes) :
+    applyOps (fs0.set tmp (some stale)) (saveOpsKeep tmp path hdr body) path = some ⟨hdr ++ body, []⟩ ↔
+      stale.content.length ≤ hdr.length + body.length := by
+  rw [save_no_truncate_final_content tmp path hne]
+  simp only [Option.some.injEq, File.mk.injEq, and_true]
+  constructor
+  · intro h
+    have := congrArg List.length h
+    simp only [List.length_append, List.length_drop] at this
+    omega
+  · intro h
+    rw [List.drop_eq_nil_of_le h]; simp
+
+/-- with no leftover temp file the two variants agree at the path -/
+theorem save_no_truncate_same_without_stale (tmp path : π) (hne : tmp ≠ path) (fs0 : FS π) (h0 : fs0 tmp = none)
+    (hdr body : Bytes) :
+    applyOps fs0 (saveOpsKeep tmp path hdr body) path = applyOps fs0 (saveOps tmp path hdr body) path := by
+  have hpt : path ≠ tmp := fun e => hne e.symm
+  rw [(save_final_exact tmp path hne fs0 hdr body).1]
+  simp [saveOpsKeep, applyOps, applyOp, FS.set, hne, hpt, h0, File.content, overlay_zero, overlay_at_end]
+
+end stale
+
+/-- a self-delimiting body codec (length byte, then that many bytes; nothing may follow — bitcode's
+    "Expected EOF"): satisfies the round-trip hypotheses and rejects a body with a stale tail -/
+def framedCodec : Codec Bytes :=
+  { enc := fun s => s.length :: s,
+    dec := fun b => match b with | n :: r => (if r.length = n then some r else none) | [] => none,
+    zip := fun b => 0 :: b, unzip := fun b => match b with | 0 :: r => some r | _ => none,
+    decV2 := fun _ => none }
+
+example : (∀ s, framedCodec.dec (framedCodec.enc s) = some s) ∧ (∀ b, framedCodec.unzip (framedCodec.zip b) = some b) :=
+  ⟨fun s => by simp [framedCodec], fun b => by simp [framedCodec]⟩
+
+/-- old snapshot `[1]` at the path (paths: `true` = temp), no temp file -/
+def staleFS0 : FS Bool := fun p => if p then none else some ⟨fileBytes framedCodec false 1 [1], []⟩
+
+/-- the directory an interrupted save of the larger content `[5,6,7,8,5,6,7,8]` leaves: the complete
+    29-byte temp file written, the crash hits before `sync_all` / rename -/
+def staleFS1 : FS Bool :=
+  applyOps staleFS0 [.create true, .write true (encodeHeader (newHeader false 8)),
+    .write true (framedCodec.enc [5, 6, 7, 8, 5, 6, 7, 8])]
+
+/-- non-vacuity: that directory IS a crash state of the real save sequence, its temp file (29 bytes)
+    is longer than the next snapshot (23 bytes), and the old snapshot is still what loads -/
+example : staleFS1 ∈ crashStates staleFS0 (saveOps true false (encodeHeader (newHeader false 8))
+    (framedCodec.enc [5, 6, 7, 8, 5, 6, 7, 8])) := by
+  have := crashStates_append
+    [.create true, .write true (encodeHeader (newHeader false 8)), .write true (framedCodec.enc [5, 6, 7, 8, 5, 6, 7, 8])]
+    [.fsync true, .rename true false] staleFS0 staleFS1 (by simp [staleFS1, crashStates, partials])
+  simpa [saveOps, saveOpsWith] using this
+example : (staleFS1 true).map (·.content.length) = some 29 ∧
+    (fileBytes framedCodec false 2 [2, 3]).length = 23 ∧ loadPath framedCodec staleFS1 false = .ok [1] := by decide
+/-- the current code on it: the next (smaller) save is exact and loads -/
+example : applyOps staleFS1 (saveOps true false (encodeHeader (newHeader false 2)) (framedCodec.enc [2, 3])) false =
+      some ⟨fileBytes framedCodec false 2 [2, 3], []⟩ ∧
+    loadPath framedCodec (applyOps staleFS1 (saveOps true false (encodeHeader (newHeader false 2)) (framedCodec.enc [2, 3])))
+      false = .ok [2, 3] := by decide
+
+/-- **The non-truncating variant violates the two-save theorem**: on the directory an interrupted
+    larger save left (old snapshot intact and loadable), the next save of the smaller `[2,3]` returns
+    with the path holding the new snapshot followed by the last 6 bytes of the stale temp file; that
+    file loads as an error, the previous good snapshot is gone — and the statement
+    `save_over_stale_tmp_exact` is false of `saveOpsKeep`. -/
+theorem save_no_truncate_stale_tmp_witness :
+    loadPath framedCodec staleFS1 false = .ok [1] ∧
+    applyOps staleFS1 (saveOpsKeep true false (encodeHeader (newHeader false 2)) (framedCodec.enc [2, 3])) false =
+      some ⟨fileBytes framedCodec false 2 [2, 3] ++ [7, 8, 5, 6, 7, 8], []⟩ ∧
+    loadPath framedCodec (applyOps staleFS1 (saveOpsKeep true false (encodeHeader (newHeader false 2)) (framedCodec.enc [2, 3])))
+      false = .error .ser ∧
+    ¬ (∀ (fs0 : FS Bool) (stale : File) (hdr body : Bytes),
+        applyOps (fs0.set true (some stale)) (saveOpsKeep true false hdr body) false = some ⟨hdr ++ body, []⟩) := by
+  refine ⟨by decide, by decide, by decide, fun h => ?_⟩
+  have := h staleFS0 ⟨[], [9, 9]⟩ [] [1]
+  revert this
+  decide
+
+/-- the quantising save without truncation: blob `[1]` over a stale `[9,9]` leaves `[1,9]` -/
+theorem saveq_no_truncate_stale_tmp_witness :
+    applyOps (staleFS0.set true (some ⟨[], [9, 9]⟩)) (saveOpsQKeep true false [1]) false = some ⟨[1, 9], []⟩ ∧
+    applyOps (staleFS0.set true (some ⟨[], [9, 9]⟩)) (saveOpsQ true false [1]) false = some ⟨[1], []⟩ := by
+  decide
 
 /-! ### before 56197952 (`…Old`): what the fix removed -/
 
